@@ -98,6 +98,23 @@ def render(sites, initial=INITIAL) -> str:
     out.append(f"        B = {_lit(initial['K0.In.B'])}\n")
     for k, s in enumerate(sites):
         op, lam = s["op"], s["lam"]
+        if s.get("supply"):
+            # the callable is a one-line function definition instead of a lambda
+            param, body = lam[len("lambda "):].split(": ", 1)
+            doc = ['"what the cut is"\n'] if s["supply"] == "def_doc" else []
+            if s.get("scope") == "module":
+                out.append(f"def gfn_{k}({param}):\n")
+                out.extend("    " + d for d in doc)
+                out.append(f"    return {body}\n")
+                out.append(f"def gsite_{k}(s):\n")
+                out.append(f"    return s.{op}(gfn_{k})\n")
+                out.append(f"def gref_{k}():\n")
+                out.append(f"    return gfn_{k}\n")
+                continue
+            fn_site = [f"        def fn_{k}({param}):\n"] + ["            " + d for d in doc] + [
+                f"            return {body}\n"]
+        else:
+            fn_site = None
         if s.get("scope") == "module":
             # a call site at module level: its free names are module globals (there, `c1` is
             # the module global that the closure cells of the other sites hide)
@@ -111,9 +128,16 @@ def render(sites, initial=INITIAL) -> str:
         out.append(f"    c1 = {_lit(initial['c1'])}\n")
         out.append(f"    min = {_lit(initial['min'])}\n")
         out.append("    def site(s):\n")
-        out.append(f"        return s.{op}({lam})\n")
-        out.append("    def ref():\n")
-        out.append(f"        return ({lam})\n")
+        if fn_site:
+            out.extend(fn_site)
+            out.append(f"        return s.{op}(fn_{k})\n")
+            out.append("    def ref():\n")
+            out.extend(fn_site)
+            out.append(f"        return fn_{k}\n")
+        else:
+            out.append(f"        return s.{op}({lam})\n")
+            out.append("    def ref():\n")
+            out.append(f"        return ({lam})\n")
         out.append("    def rebind(n, v):\n")
         out.append("        nonlocal c0, c1, min\n")
         out.append("        if n == 'c0':\n")
